@@ -578,3 +578,18 @@ def split_tests(tests):
     for t, pos in tests:
         out += literals(t, pos)
     return out
+
+
+def str_parts(expr):
+    """Parts of a string-building expression in normal form (a JoinedStr after sa.normal): literal text as is, holes as `{source}`."""
+    if isinstance(expr, ast.Constant) and isinstance(expr.value, str):
+        return [expr.value]
+    if isinstance(expr, ast.JoinedStr):
+        out = []
+        for v in expr.values:
+            if isinstance(v, ast.Constant):
+                out.append(v.value)
+            else:
+                out.append("{" + norm(v.value) + ("" if v.format_spec is None else ":" + norm(v.format_spec)) + "}")
+        return out
+    return None
